@@ -868,8 +868,10 @@ func organizeFilterOptionsByClause(filters []*semantic.FilterClause, clauses []*
 
 			compatibleBindingsByField := compatibleBindingsInClause(cls)
 			filterBindingIsCompatible := false
-			for field, bndgs := range compatibleBindingsByField {
-				if bndgs[f.Binding] {
+			// In a fixed order: a binding may sit in both positions (?s ?b ?b), and
+			// which one the filter looks at must not depend on map iteration.
+			for _, field := range []filter.Field{filter.PredicateField, filter.ObjectField} {
+				if bndgs := compatibleBindingsByField[field]; bndgs[f.Binding] {
 					filterBindingIsCompatible = true
 					filterOptionsByClause[cls] = &filter.StorageOptions{
 						Operation: f.Operation,
